@@ -333,3 +333,85 @@ def all_types_spec(alpha_str='x'):
                       {'type': 'DmeChild', 'name': 'child', 'uuid': u(2),
                        'attrs': [{'name': 'parent', 't': 'ELEMENT', 'arr': False, 'vals': [['i', 0]]},
                                  {'name': 'me', 't': 'ELEMENT', 'arr': False, 'vals': [['i', 1]]}]}]}
+
+
+# ----------------------------------------------------------------------------- KeyValues2 (text values)
+
+def canon_text(root):
+    """Indexed graph with values as the text the implementation converts them to
+    (TYPE_CONVERT[type, STRING]); strings as code points. The JSON `G2` of the Lean driver."""
+    from srctools import dmx
+    from srctools.dmx import StubElement, NULL, ValueType
+    elements = [root]
+    ind = {id(root): 0}
+
+    def index(e):
+        if id(e) not in ind:
+            ind[id(e)] = len(elements)
+            elements.append(e)
+        return ind[id(e)]
+
+    def cps(s):
+        return [ord(c) for c in s]
+
+    out = []
+    i = 0
+    while i < len(elements):
+        el = elements[i]
+        i += 1
+        attrs = []
+        for a in el.values():
+            if a.name == 'name':
+                continue
+            vals = []
+            for v in (list(a._value) if a.is_array else [a._value]):
+                if a.type is ValueType.ELEMENT:
+                    if v is NULL or (isinstance(v, StubElement) and v.is_null):
+                        vals.append(['n'])
+                    elif isinstance(v, StubElement):
+                        vals.append(['s', cps(str(v.uuid))])
+                    else:
+                        vals.append(['i', index(v)])
+                else:
+                    vals.append(['x', cps(dmx.TYPE_CONVERT[a.type, ValueType.STRING](v))])
+            attrs.append({'name': cps(a.name), 't': VT_NUM[a.type.name], 'arr': bool(a.is_array), 'vals': vals})
+        out.append({'type': cps(el.type), 'name': cps(el.name), 'uuid': cps(str(el.uuid)), 'attrs': attrs})
+    return {'elems': out}
+
+
+def renumber_nodes(nodes):
+    """BFS renumbering from node 0 of the model's parsed nodes (same order as canon_text)."""
+    order, ind = [0], {0: 0}
+    out = []
+    i = 0
+    while i < len(order):
+        n = nodes[order[i]]
+        i += 1
+        attrs = []
+        for a in n['attrs']:
+            vals = []
+            for v in a['vals']:
+                if v[0] == 'i':
+                    if v[1] not in ind:
+                        ind[v[1]] = len(order)
+                        order.append(v[1])
+                    vals.append(['i', ind[v[1]]])
+                else:
+                    vals.append(v)
+            attrs.append({'name': a['name'], 't': a['t'], 'arr': a['arr'], 'vals': vals})
+        out.append({'type': n['type'], 'name': n['name'], 'uuid': n['uuid'], 'attrs': attrs})
+    return {'elems': out}
+
+
+def text_graph_diff(g1, g2):
+    """g2 may have uuid None (not written): compared only where present."""
+    if len(g1['elems']) != len(g2['elems']):
+        return f"element count {len(g1['elems'])} != {len(g2['elems'])}"
+    for i, (a, b) in enumerate(zip(g1['elems'], g2['elems'])):
+        if a['type'] != b['type'] or a['name'] != b['name']:
+            return f'element {i}: type/name differs'
+        if b['uuid'] is not None and a['uuid'] is not None and a['uuid'] != b['uuid']:
+            return f'element {i}: uuid differs'
+        if a['attrs'] != b['attrs']:
+            return f'element {i}: attributes differ'
+    return None
